@@ -19,6 +19,9 @@ pub mod spawn;
 mod system;
 pub mod tracing;
 mod util;
+#[cfg(pendulum_project_ntpd_rs_verif)]
+#[path = "/verif/hooks/ntpd/mod.rs"]
+pub mod verif;
 
 use std::{error::Error, io::IsTerminal, path::Path};
 
